@@ -201,6 +201,9 @@ def run(ctx):
     d3_record_before_act(ctx, rm)
     d4_per_call_subscriptions(ctx, rm)
     bundler_forgotten_only_after_successful_close(ctx, rm, "C06.D5-cleanup-sees-unclosed-runs")
+    from . import c41
+
+    c41.monitor_forgotten_only_after_unsubscribed(ctx, rm, "C06.D5-monitor-forgotten-only-after-unsubscribed")
     ctx.extra.update(tail.g.stats())
 
 
